@@ -23,7 +23,7 @@ class C10(Prop):
         "input and wait, timeout None/finite, optional waiter_event, timeout handled or re-raised), then completes; external responses "
         "are sent at generated virtual instants: matching, wrong type, subclass of the requested type, wrong key, duplicates at one "
         "instant and later, early (before the waiter exists) and late (after the timeout); optionally the context is serialized "
-        "through JSON at a generated instant, the first life killed and a fresh workflow instance resumed from Context.from_dict. "
+        "through JSON at a generated instant, the first life killed and a fresh workflow instance resumed from Context.from_dict (optionally that resumed run is serialized again before its first loop turn and resumed from the second snapshot). "
         "Oracle over the body log and the stream: each input completes the waiting step at most once; every value returned by a wait "
         "has exactly the requested type and satisfies the requirement, is the same on every replay, was sent after the waiter was "
         "registered and is the earliest such event; a finite-timeout wait raises TimeoutError only if no matching event was sent in "
@@ -86,6 +86,8 @@ class C10(Prop):
                 "replies": sorted(replies),
                 "snap": draw(st.sampled_from([None, None, None, None, None, None, 0, 1, 2, 3, 4, 5, 7, 9])),
                 "ties": draw(st.lists(st.integers(0, 7), max_size=8)),
+                # the resumed run is serialized again before its first loop turn and resumed from that second snapshot
+                "resnap": draw(st.sampled_from([False, False, True])),
             }
 
         return case()
@@ -193,6 +195,7 @@ class C10(Prop):
         spec = {"steps": [], "ext": ext, "ties": case["ties"], "timeout": None}
         if case["snap"] is not None:
             spec["snap"] = case["snap"]
+            spec["resnap"] = bool(case.get("resnap"))
         rec = genwf.Rec(spec)
 
         async def main():
@@ -345,6 +348,8 @@ class C10(Prop):
             r.classes.append("timeout_fired")
         if resumed:
             r.classes.append("resumed")
+            if case.get("resnap"):
+                r.classes.append("resumed_from_second_snapshot")
         if pending_at_resume:
             r.classes.append("resume_with_pending_waiter")
         if any(len(i["waits"]) > 1 for i in case["inputs"]):
